@@ -22,6 +22,7 @@ RULE = ("the whole space is enumerated in both tiers: get_all_tokenizers() (5,87
         "digested and must be pairwise distinct; all_instances(cls, validation_funcs) for every element class against the loops; "
         "hash()/hash_int() distinctness (sample in quick, all in thorough); names and hashes of sampled tokenizers recomputed in "
         "fresh processes with PYTHONHASHSEED in {0,1,777}; load(serialize()) and zanj save/read on a pairwise covering set; "
+        "name and hashes of a tokenizer must be the same after it has tokenized mazes, equal to those of an unused twin, and survive save/load of the used object; "
         "from_legacy(mode) must be legacy-equivalent and no other tokenizer may claim to be (sample in quick, all in thorough). "
         "non-trivial & distinct = distinct tokenizer configurations whose parameters, name or hash were examined")
 ASSUMPTIONS = ["the validity rules are: CTT/UT coordinates; AdjList{Coord,Cardinal} with pre=False, Ungrouped(0|1|2), {All,Connection(walls)}, "
@@ -32,7 +33,7 @@ NSHARDS = {"quick": 4, "thorough": 4}
 EXPECTED = 9 * 216 * 1008 * 3
 THRESHOLDS = {"quick": {"c15:enumerated": EXPECTED, "c15:reference-enumerated": EXPECTED, "c15:names-digested": EXPECTED,
                         "c15:element-classes": 10, "c15:hash-checked": 150000, "c15:cross-process": 1500, "c15:hashseeds": 3,
-                        "c15:save-load": 300, "c15:zanj-file": 30, "c15:legacy-checked": 40000, "c15:from_legacy": 3,
+                        "c15:save-load": 300, "c15:identity-after-use": 250, "c15:zanj-file": 30, "c15:legacy-checked": 40000, "c15:from_legacy": 3,
                         "c15:legacy-neighbours": 20}}
 THRESHOLDS["thorough"] = {**THRESHOLDS["quick"], "c15:hash-checked": EXPECTED, "c15:legacy-checked": EXPECTED, "c15:save-load": 2000}
 ANCHORS = ["maze_dataset.tokenization.all_tokenizers:get_all_tokenizers",
@@ -250,6 +251,22 @@ def element_classes(ctx):
             ctx.nontrivial("cls", name, len(inst))
 
 
+_USE = []
+
+
+def _use_mazes():
+    """two small solved mazes (harness-built) used to exercise a tokenizer"""
+    if not _USE:
+        from .. import lib, ref
+        from ..ref import Graph
+
+        rng = np.random.Generator(np.random.PCG64(5))
+        for n in (3, 4):
+            cl = ref.tree_plus(n, n, 1, rng)
+            _USE.append(lib.solved(cl, Graph(cl).shortest_path((0, 0), (n - 1, n - 1))))
+    return _USE
+
+
 def identity_checks(ctx):
     from maze_dataset.tokenization import MazeTokenizer, MazeTokenizerModular, TokenizationMode
     from zanj import ZANJ
@@ -272,6 +289,25 @@ def identity_checks(ctx):
             ctx.check(t2.name == t.name and hash(t2) == hash(t), "C15/load-serialize-changes-name-or-hash", f"{t2.name} vs {t.name}", case)
             if t.name == ts.name_of(p):
                 ctx.tally("c15:name-follows-documented-scheme(observed, not judged)")
+            # identity must not depend on use: tokenize mazes with t, then compare with the values before and with an unused twin
+            before = (t.name, hash(t), t.hash_int(), t.hash_b64())
+            try:
+                for mz in _use_mazes():
+                    t.to_tokens(mz)
+                used = True
+            except Exception as e:  # noqa: BLE001  (tokenization itself is C06's business)
+                used = False
+                ctx.tally(f"c15:use-failed(not judged):{type(e).__name__}")
+            if used:
+                ctx.tally("c15:identity-after-use")
+                after = (t.name, hash(t), t.hash_int(), t.hash_b64())
+                ctx.check(after == before, "C15/name-or-hash-changes-with-use", lambda: f"before {before} after {after}", case)
+                twin = ts.build_tokenizer(p)
+                ctx.check(twin.name == t.name and hash(twin) == hash(t) and (twin == t) is True, "C15/used-tokenizer-differs-from-equal-fresh-one",
+                          lambda: f"used {t.name} / fresh {twin.name}", case)
+                t4 = MazeTokenizerModular.load(t.serialize())
+                ctx.check(t4.name == before[0] and hash(t4) == before[1] and canon_obj(t4) == canon_params(p), "C15/load-serialize-of-used-tokenizer-changes-name-or-hash",
+                          lambda: f"{t4.name} vs {before[0]}", case)
             if i % 8 == 0:
                 path = os.path.join(ctx.work, f"tok-{ctx.shard}-{i}.zanj")
                 ZANJ().save(t, path)
